@@ -15,8 +15,8 @@
                       validators, candidates, policy, natives, contracts, roles) equals the reference's at
                       that height, and the trie under its root holds exactly its flat storage
      Continuation     it accepts the remaining canonical blocks, every digest equal to the reference's
-     ResumesReset     a database with a reset marker comes back at the reset target
-     ResetConfluence  ... with the same database content as the uninterrupted reset
+     ResumesReset     a database with a reset / jump marker comes back at the reset target / sync point
+     ResetConfluence  ... with the same database content as the uninterrupted reset / jump
      ResetIndistinguishable  a completed reset equals a replica that only synchronised to the target, now
                       and on a different continuation
    MODEL level (reported as drift: the code is allowed to differ from the implementation-shaped model as long
@@ -28,9 +28,9 @@ EXTENDS TraceIO, FiniteSets, SequencesExt
 
 CONSTANT Page
 
-D == INSTANCE NodeDisk WITH MaxH <- 0, Ahead <- 0, MaxCrash <- 0, MaxReset <- 0, GCOn <- FALSE, MTB <- 0, GCP <- 1,
+D == INSTANCE NodeDisk WITH MaxH <- 0, Ahead <- 0, MaxCrash <- 0, MaxReset <- 0, GCOn <- FALSE, MTB <- 0, GCP <- 1, JumpOn <- FALSE,
         Dev <- {}, disk <- 0, view <- 0, up <- 0, dead <- 0, sr <- 0, gcLast <- 0, pc <- 0, op <- 0, pend <- 0,
-        acc <- 0, rst <- 0, confl <- 0, crashes <- 0, resets <- 0
+        acc <- 0, rst <- 0, confl <- 0, crashes <- 0, resets <- 0, sync <- 0, jst <- 0
 
 VARIABLES l, refd
 vars == <<l, refd>>
@@ -42,7 +42,7 @@ Ivs(s) == UNION {(iv[1])..(iv[2]) : iv \in ToSet(s)}
 \* a projected database as a NodeDisk disk record (trie completeness is not projected: the recover events
 \* carry the comparison of the real trie with the flat storage instead)
 ToDisk(p) == [ver |-> p.ver, cur |-> p.cur, hdr |-> p.hdr, blk |-> Ivs(p.blk), hdo |-> Ivs(p.hdo),
-              pages |-> ToSet(p.pages), roots |-> Ivs(p.roots), mpt |-> Ivs(p.roots),
+              pages |-> ToSet(p.pages), roots |-> Ivs(p.roots), mpt |-> Ivs(p.roots) \cup {p.sp},
               flat |-> [x \in {"A", "B"} |-> IF x = "A" THEN p.flatA ELSE p.flatB], pfx |-> p.pfx,
               stage |-> p.stage, sp |-> p.sp, xfer |-> p.cur]
 
@@ -63,6 +63,8 @@ BatchKind(e) ==
        /\ StageIdx(a.stage) > 0 /\ StageIdx(b.stage) > 0
        /\ \/ (b.stage # "none" /\ StageIdx(b.stage) - StageIdx(a.stage) \in {1, 2})
           \/ (b.stage = "none" /\ a.stage \in {"r4", "r5"})
+    \/ /\ e.kind = "put" /\ e.phase \in {"jump", "resume"}                                                   \* one jump stage
+       /\ <<a.stage, b.stage>> \in {<<"none", "j1">>, <<"j1", "j2">>, <<"j2", "j3">>, <<"j3", "none">>}
     \/ /\ e.kind = "gc" /\ e.phase \in {"reset", "resume"}                                                   \* stale prefix removal
        /\ (OnlyTouches(e, {"storA-"}) \/ OnlyTouches(e, {"storB-"}))
        /\ a.stage \in {"r4", "r5"} /\ b.stage = a.stage
@@ -76,6 +78,9 @@ Predict(p) ==
     ELSE <<TRUE, d.sp>>
 
 RefAt(h) == IF h >= 0 /\ h + 1 <= Len(refd) THEN refd[h + 1] ELSE [none |-> h]
+DigestDiff(a, b) == IF DOMAIN a = DOMAIN b THEN {k \in DOMAIN a : a[k] # b[k]} ELSE {"domain"}
+\* a state-synced node holds the blocks up to its sync point without execution results (retention, not state)
+Retained(e) == IF e.node = "sink" /\ e.h = e.post.sp THEN {"aers"} ELSE {}
 
 Step ==
     /\ l <= Len(TLog)
@@ -96,11 +101,11 @@ Step ==
          [] e.event = "recover" ->
               /\ UNCHANGED refd
               /\ LET pr == Predict(e.pre)
-                     inreset == e.stage \in {"r1", "r2", "r3", "r4", "r5"} IN
+                     inreset == e.stage \in {"r1", "r2", "r3", "r4", "r5", "j1", "j2", "j3"} IN
                  Report(l, NameIf(e.ok, "RestartOK")
                            \cup (IF e.ok THEN
                                    NameIf(e.h <= e.acc, "HeightBound")
-                                   \cup NameIf(e.digest = RefAt(e.h) /\ e.trie_ok, "StateAtHeight")
+                                   \cup NameIf(DigestDiff(e.digest, RefAt(e.h)) \subseteq Retained(e) /\ e.trie_ok, "StateAtHeight")
                                    \cup NameIf(e.cont_ok, "Continuation")
                                    \cup NameIf(inreset => e.h = e.pre.sp, "ResumesReset")
                                    \cup NameIf(e.dump_eq # 0, "ResetConfluence")
@@ -109,7 +114,7 @@ Step ==
                         [label |-> e.label, phase |-> e.phase, stage |-> e.stage, acc |-> e.acc, h |-> e.h, depth |-> e.depth,
                          alt |-> e.alt, err |-> e.err, panic |-> e.panic, cont_at |-> e.cont_at, cont_err |-> e.cont_err,
                          cont_diff |-> e.cont_diff, trie_ok |-> e.trie_ok, dump_diff |-> e.dump_diff, node |-> e.node,
-                         predicted |-> pr, ref |-> IF e.ok THEN RefAt(e.h) ELSE <<>>, digest |-> IF e.ok THEN e.digest ELSE <<>>])
+                         predicted |-> pr, differs |-> IF e.ok THEN DigestDiff(e.digest, RefAt(e.h)) ELSE {}])
          [] e.event = "fork" ->
               /\ UNCHANGED refd
               /\ Report(l, NameIf(e.equal0 /\ e.ok, "ResetIndistinguishable"),
